@@ -29,6 +29,9 @@ CHECKS = {
         native(),
         tsan(args={"quick": {"part": "stress", "budget-s": 25}, "thorough": {"part": "stress", "budget-s": 300}}),
     ]},
-    "C02": {"crate": "h_store", "bin": "c02", "level": "fault_enumeration", "legs": [native()]},
+    "C02": {"crate": "h_store", "bin": "c02", "level": "fault_enumeration", "legs": [
+        native(),
+        script("strace-ack", "legs_fsync", "c02_leg"),
+    ]},
     "C17": {"crate": "h_chain", "bin": "c17", "level": "exploration", "legs": [native()]},
 }
